@@ -126,6 +126,17 @@ fn main() {
     let mut results = explore_many(small, Mode::U, cap, 3, 16, cl);
     SPURIOUS_BUDGET.store(0, std::sync::atomic::Ordering::Relaxed);
     results.extend(explore_many(large, Mode::U, cap, 3, 16, cl));
+    // a long run by one thread alone (34 updates), then two other threads join: every schedule with <= 2 preemptions
+    {
+        let a = CellOp::Add(1.0);
+        let fl: Vec<Flavour> = if thorough { flavours.to_vec() } else { vec![Flavour::Counter] };
+        for f in fl {
+            let d = CellDriver { cloned: true, flavour: f, prelude: vec![], programs: instantiate(&[vec![a; 34], vec![a], vec![a, CellOp::Get]]) };
+            let name = verif_harness::vsched::Driver::name(&d);
+            let r = verif_harness::vsched::explore(d, Mode::B(2), 3_000_000, 16);
+            results.push((name, Mode::B(2), r));
+        }
+    }
     // the three-updaters-inside drivers are the largest single explorations: 16 workers on each in turn
     for d in three_inside {
         let name = verif_harness::vsched::Driver::name(&d);
